@@ -303,6 +303,7 @@ def run(rep, tier):
         clause_h(facts, rep)
         clause_i(facts, rep)
         clause_j(facts, rep)
+        clause_k(facts, rep, tier)
     rep.trust('clang 14 front end and constant evaluator', 'Python big integers / fractions', 'Clinger exact fast-path conditions',
               'simd_str2int contract: the digit count it stores never exceeds the requested count')
     rep.assumptions += [
@@ -896,3 +897,63 @@ def clause_j(facts, rep):
                       'mask 0x%x (must be 0x1ff); the single-multiply result is accepted for low bits %s - 0 and all-ones are the patterns where the discarded product can change the rounding' % (
                           mask, [hex(v) for v in bad]), facts.config)
     rep.require(n >= 1, 'C04.j: guard on the low product bits of ParseFloatingNormalFast not found')
+
+
+def clause_k(facts, rep, tier='quick'):
+    """simd_str2int(c, n): evaluated with the SSE interpreter (sv/minterp.py, Intel lane semantics) on a 16-byte
+    window: it returns the value of the first min(n, run) digits and stores that count, where run is the length of
+    the leading digit run.  The pipeline is linear in the digits (maddubs / madd / pack), so the digit-basis inputs
+    (a single 1 or 9 at each position, all nines for the absence of overflow, a counting pattern) fix every
+    coefficient for every (run, n); every terminator class is tried at every run length."""
+    from ..minterp import Interp, Unsupported, UndefinedBehaviour
+    fs = [f for f in facts.functions if f.short == 'simd_str2int']
+    rep.require(len(fs) >= 1, 'C04.k: simd_str2int not found')
+    terms = [0, ord('.'), ord('e'), ord('E'), ord(','), ord(' '), ord('/'), ord(':'), ord('x'), ord('-'), 0x80, 0xFF]
+    for f in fs[:1]:
+        rep.fn(f)
+        base = 0x2000
+        bad = None
+        cnt = 0
+
+        def run(buf, need):
+            it = Interp(f, facts)
+            it.memory = {base + i: b for i, b in enumerate(buf)}
+            r = it.run({f.params[0]['id']: base, f.params[1]['id']: need}, {})
+            return r[0], r[1][f.params[1]['id']]
+        try:
+            for L in range(0, 17):
+                pats = ['1234567890123456'[:L], '9' * L]
+                if L:
+                    for p_ in range(L):
+                        for d in ('1', '9'):
+                            pats.append('0' * p_ + d + '0' * (L - p_ - 1))
+                needs = sorted(set([1, 2, L, L + 1, 16, 17]) - {0}) if tier == 'quick' else list(range(1, 18))
+                for k_, pat in enumerate(sorted(set(pats))):
+                    tl = terms if k_ == 0 else [ord('.')]
+                    for tch in tl:
+                        buf = (pat.encode() + bytes([tch]) * (16 - L))[:16] if L < 16 else pat.encode()
+                        if L < 16 and tch == 0:
+                            buf = pat.encode() + bytes(16 - L)
+                        for need in needs:
+                            cnt += 1
+                            try:
+                                got = run(buf, need)
+                            except UndefinedBehaviour as ex:
+                                bad = 'digits %r terminator 0x%02x n=%d: undefined behaviour: %s' % (pat, tch, need, ex)
+                                break
+                            m = min(L, need)
+                            want = (int(pat[:m]) if m else 0, m)
+                            if got != want:
+                                bad = 'digits %r terminator 0x%02x n=%d -> (value, count) = %s, expected %s' % (pat, tch, need, got, want)
+                                break
+                        if bad:
+                            break
+                    if bad:
+                        break
+                if bad:
+                    break
+        except Unsupported as ex:
+            raise AnalysisBroken('C04.k: simd_str2int not evaluable: %s' % ex)
+        rep.extra['simd_str2int_evaluations'] = cnt
+        rep.check(bad is None, 'E5.simd-digits', f.qn, 'value and digit count of the first min(n, run) digits for every run length 0..16, digit basis and terminator class (%d evaluations)' % cnt, f.loc,
+                  bad or '', facts.config)
